@@ -11,14 +11,43 @@ import numpy as np
 import scipy.linalg as sla
 import filter_functions as ff
 from filter_functions import numeric
+import os
 from .. import gen, emit
 from ..common import carr_lit
+
+# Semantic tie of the small kernels (numeric._first_order_integral, util.integrate, util.cexp,
+# numeric.calculate_filter_function): coq/Extracted/Kernels.v must be regenerated from the current sources BEFORE the
+# Coq build of Properties/C01.v (which requires Proofs/KernelTie.v), and tools/check.py imports this module before it
+# builds (tools/check.py / tools/extract.py are frozen; the proper hook would be a call next to extract.py).
+import importlib.util as _ilu
+_spec = _ilu.spec_from_file_location('kernel_extract', os.path.join(os.path.dirname(os.path.dirname(os.path.dirname(
+    os.path.abspath(__file__)))), 'kernel_extract.py'))
+kernel_extract = _ilu.module_from_spec(_spec)
+_spec.loader.exec_module(kernel_extract)
+
+
+def _regen_kernels():
+    try:
+        return kernel_extract.main()
+    except Exception as e:      # noqa -- fail closed: a file that cannot be produced is a broken obligation
+        msg = 'kernel_extract failed: %r' % (e,)
+        with open(kernel_extract.OUT, 'w') as f:
+            f.write('From Coq Require Import List String.\nImport ListNotations.\nLocal Open Scope string_scope.\n'
+                    'Definition kernel_untranslated : list string := [%s].\n' % kernel_extract.coq_string(msg))
+        return dict(kernels=0, problems=[msg])
+
+
+KERNELS = _regen_kernels()
 
 ID = 'C01'
 TRUSTED = ['numpy.linalg.eigh is an oracle: its output is validated per case in interval arithmetic '
            '(H V = V D, V^dagger V = 1, residual <= 1e-11*scale) and passed to the model',
            'floating-point rounding of the implementation is absorbed in the comparison tolerance (1e-8 relative to '
            'the largest entry), not proved']
+TRUSTED += ['kernel tie: tools/kernel_extract.py (per-entry symbolic execution of the NumPy subset listed in its docstring: '
+            'broadcasting, out= / where= writes, .real / .imag views, boolean-mask assignment, einsum with literal '
+            'subscripts as nested sums, inlining of util.* calls) and the calling contexts stated in its KERNELS specs; '
+            'complex multiplication / division are taken by their textbook formulas over the reals']
 ASSUMPTIONS = ['piecewise-constant pulses with d<=4, <=4 segments, <=3 noise operators in the sampled correspondence; '
                'theorems are size-independent']
 REL_TOL = 1e-8
@@ -154,11 +183,73 @@ def property_predicates(p, om, B, F, Fgen, tags):
     return bad
 
 
+def kernel_failures():
+    """regenerate Extracted/Kernels.v; a kernel outside the translator's subset is reported (fail closed)"""
+    before = open(kernel_extract.OUT).read() if os.path.exists(kernel_extract.OUT) else ''
+    res = _regen_kernels()
+    out = []
+    if open(kernel_extract.OUT).read() != before:
+        out.append(dict(kind='harness', observable='translated kernels changed during the run', signature='c01-kernel-stale',
+                        detail='coq/Extracted/Kernels.v was regenerated with different content after the Coq build: the '
+                               'sources changed during the run; re-run', input=None))
+    for p in res['problems'][:5]:
+        out.append(dict(kind='translator', observable='kernel tie: construct outside the subset of tools/kernel_extract.py',
+                        signature='c01-kernel-translation', detail=p, input=dict(kind='kernel', what=p)))
+    return out
+
+
+def kernel_tie_failures():
+    """If the build could not produce Proofs/KernelTie.vo, compile that file alone (outputs into a scratch directory) and
+    name the obligation that broke: the current Python kernel no longer means what the model function says."""
+    import re
+    import shutil
+    import tempfile
+    from .. import common as C
+    v = os.path.join(C.COQ, 'Proofs', 'KernelTie.v')
+    vo, kv = v + 'o', kernel_extract.OUT
+    if os.path.exists(vo) and os.path.getmtime(vo) >= max(os.path.getmtime(v), os.path.getmtime(kv)):
+        return []
+    tmp = tempfile.mkdtemp(prefix='kerneltie-', dir=os.path.join(C.VERIF, 'replays'))
+    try:
+        rc, out, _ = C.run(['coqc', '-q', '-Q', '.', 'FF', '-noglob', '-o', os.path.join(tmp, 'KernelTie.vo'),
+                            os.path.join('Proofs', 'KernelTie.v')], timeout=300, cwd=C.COQ)
+    finally:
+        shutil.rmtree(tmp, ignore_errors=True)
+    if rc == 0:
+        return []       # compiles now (the build was interrupted elsewhere); nothing to name
+    m = re.search(r'File "[^"]*KernelTie\.v", line (\d+), characters [^\n]*\n(Error:(?:.*\n?){0,8})', out)
+    name, msg = 'Proofs/KernelTie.v', ' '.join(out.split())[-400:]
+    if m:
+        txt = open(v).read().split('\n')
+        prev = [re.match(r'\s*(?:Theorem|Lemma|Example)\s+([A-Za-z0-9_\']+)', ln) for ln in txt[:int(m.group(1))]]
+        prev = [x.group(1) for x in prev if x]
+        if prev:
+            name = 'Proofs/KernelTie.v:%s (line %s)' % (prev[-1], m.group(1))
+        msg = ' '.join(m.group(2).split())[:400]
+    return [dict(kind='kernel-tie', observable='kernel tie broken: ' + name, signature='c01-kernel-tie',
+                 detail='the term translated from the current Python kernel (coq/Extracted/Kernels.v) is no longer proved '
+                        'equal to the model function: ' + msg, input=dict(kind='kernel-tie', what=name))]
+
+
+def kernel_tie_failures_fresh():
+    """as kernel_tie_failures, after bringing Proofs/KernelTie.vo up to date with `make` under the build lock of
+    tools/check.py (used by --replay, which does not build)"""
+    import fcntl
+    from .. import common as C
+    with open(os.path.join(C.COQ, '.build.lock'), 'w') as lockf:
+        fcntl.flock(lockf, fcntl.LOCK_EX)
+        C.run(['make', '-k', 'Proofs/KernelTie.vo'], cwd=C.COQ, timeout=3000)
+        bad = kernel_tie_failures()
+        fcntl.flock(lockf, fcntl.LOCK_UN)
+    return bad
+
+
 def run(ctx):
     n = 160 if ctx.thorough else 28
     r = ctx.rng(1)
     cases, classes = [], {}
-    failures, samples = [], []
+    failures, samples = kernel_failures(), []
+    failures += kernel_tie_failures()
     for i in range(n):
         p, om, tags = make_case(r, ctx.thorough)
         if i % 7 == 3:
@@ -234,6 +325,17 @@ def replay(ctx, rep):
     inp = rep.get('input')
     if not inp:
         return False, 'replay names a broken obligation: %s' % rep.get('observable')
+    if inp.get('kind') == 'kernel-tie':
+        _regen_kernels()
+        bad = kernel_tie_failures_fresh()
+        if bad:
+            return False, 'replay reproduces: %s -- %s' % (bad[0]['observable'], bad[0]['detail'][:300])
+        return True, 'replay: Proofs/KernelTie.v compiles against the kernels translated from the current sources'
+    if inp.get('kind') == 'kernel':
+        probs = _regen_kernels()['problems']
+        if probs:
+            return False, 'replay reproduces: kernels outside the translated subset: %s' % probs
+        return True, 'replay: every kernel is translated (coq/Extracted/Kernels.v regenerated)'
     def arr(x):
         if isinstance(x, dict):
             return np.array(x['re']) + 1j * np.array(x['im'])
